@@ -4,6 +4,8 @@ package main
 import (
 	"fmt"
 	"os"
+	"os/exec"
+	"strings"
 
 	"verifmc/checks/inputs"
 	"verifmc/checks/mpt"
@@ -42,12 +44,26 @@ func main() {
 		fmt.Fprintln(os.Stderr, "unknown check", os.Args[1])
 		os.Exit(2)
 	}
+	rt.SubRun = strings.HasSuffix(os.Args[0], ".small")
 	if os.Args[2] == "--sub" && len(os.Args) >= 4 {
-		rt.SubRun = true
+		rt.SubDump = true
 		os.Exit(f(rt.Tier(os.Args[3])))
 	}
 	if os.Args[2] == "--replay" && len(os.Args) >= 4 {
 		rt.Replay = rt.LoadReplay(os.Args[3])
+		if strings.HasPrefix(rt.Replay.Run, rt.VariantPrefix) && !rt.SubRun {
+			// recorded in the small-thresholds build: replay it there
+			cmd := exec.Command(os.Args[0]+".small", os.Args[1:]...)
+			cmd.Stdout, cmd.Stderr = os.Stdout, os.Stderr
+			if err := cmd.Run(); err != nil {
+				if ee, ok := err.(*exec.ExitError); ok {
+					os.Exit(ee.ExitCode())
+				}
+				fmt.Fprintln(os.Stderr, "HARNESS-ERROR: small-thresholds variant:", err)
+				os.Exit(2)
+			}
+			os.Exit(0)
+		}
 		os.Exit(f(rt.Replay.Tier))
 	}
 	tier := rt.Tier(os.Args[2])
